@@ -12,7 +12,8 @@ CHECKS = {
                 'type, before the data set is resized to values.size(); all values are converted with get<T> and transferred over the whole '
                 'data set with the memory type of T, strings copied out before vlen reclaim; clearing sets extent 0; Variant keeps tag and '
                 'member in agreement and owns its C string exactly when the tag is String; unit/uncertainty/definition keys agree. Equality '
-                'of particular values (NaN, extremes, UTF-8 bytes) through libhdf5 conversion is NOT decided.',
+                'of particular values (NaN, extremes, UTF-8 bytes) through libhdf5 conversion is NOT decided.'
+                ' Added: R-GETTER, R-GROW (value data sets have no fixed maximum), R-DCPL, R-MEMTYPE, R-NULL-CSTR.',
     },
     'C15': {
         'technique': 'static analysis: cell codec table agreement (Janus copyValue/copyData vs. to_data_type<T>), def-use rule for compound '
@@ -25,7 +26,8 @@ CHECKS = {
                 'writeRow pairs value k with member k; rows(n) sets extent n; column access uses (name, 0, memtype(dtype)) on the selection '
                 '(count, offset) and marshals strings; schema name/type/unit stay on one index; unsupported types and duplicate names are refused '
                 'before anything is created; the backend is never handed a count the vector does not cover. Cell values over all write histories '
-                'and the zero/empty fill of unwritten cells are libhdf5 behaviour: NOT decided.',
+                'and the zero/empty fill of unwritten cells are libhdf5 behaviour: NOT decided.'
+                " Added: Janus member-of-cell clause, writeCells transfers the caller's list, R-STRIO, R-DCPL, R-GROW, R-MEMTYPE, R-SWAP, R-NULL-CSTR.",
     },
     'C01': {
         'technique': 'static analysis: writer/reader table agreement (DataType <-> HDF5 file/memory type, decoder, element size, to_data_type<T>) by '
@@ -38,7 +40,8 @@ CHECKS = {
                 'growing by the count on the axis only; calibration is applied only on read, exactly when coefficients or an origin are stored, as '
                 'read(Double) -> polynomial(input - origin) -> convert(Double -> requested); the data set is created chunked with unlimited maximum '
                 'extent so growth/shrink is possible. Value equality of what libhdf5 returns (conversion of particular values, fill of grown '
-                'regions) is NOT decided.',
+                'regions) is NOT decided.'
+                ' Added during seeding rounds: string marshalling pairs element i with element i and defines every element (R-STRIO); Compression is forwarded down to the data set creation (R-FORWARD-COMP); data set creation / access / transfer property lists carry no setting from a deny list (fill time, fill value, lossy filters) (R-DCPL); resized data sets have no fixed maximum (R-GROW); raw transfers get a memory type made from the buffer element type (R-MEMTYPE) in the right argument positions (R-ROLE, R-SWAP); backend objects cache nothing (R-NOCACHE).',
     },
     'C02': {
         'technique': 'static analysis: storage-key agreement rule per backend field (setter / clearing overload / getter / creating constructor / '
@@ -50,13 +53,15 @@ CHECKS = {
                 'cache); the only handle cache either re-looks the container up or no cached container is ever unlinked; links are hard links; '
                 'LinkType/DimensionType/DataType codecs are bijective on what is stored and the dimension opener builds the class of the stored '
                 'kind; close releases every id then the file; no mutating HDF5 result is dropped. Equality of the whole entity tree over all '
-                'operation histories (a model comparison over runtime states) is NOT decided.',
+                'operation histories (a model comparison over runtime states) is NOT decided.'
+                " Added: optional getters report 'not set' only for an absent key (R-GETTER); const backend methods never write (R-GETPURE); lookup tables in backend objects are coherent, no member is filled lazily, optGroup never answers 'absent' from memory (R-NOCACHE); index access iterates the creation-order index increasingly (R-ORDER); file property lists carry no denied setting (R-FAPL).",
     },
     'C03': {
         'technique': 'static analysis: dominance-based validate-before-create rule over clang AST/CFG facts (custom checker)',
         'text': 'Decides a structural necessary condition of C03 on every path of every front-end create entry point: the '
                 'name (and type) is validated and a same-kind existence test on the same name leads away from the '
-                'backend create call (R-VAL). It does not decide lookup/count/order agreement for runtime histories.',
+                'backend create call (R-VAL). It does not decide lookup/count/order agreement for runtime histories.'
+                ' Added: a child linked under the queried name is always found before any id search (R-NAMEFIRST); backend objects keep no stale lookup tables (R-NOCACHE); name/id filter predicates compare the attribute exactly (R-FILTER).',
     },
     'C10': {
         'level': 'proof',
@@ -81,7 +86,8 @@ CHECKS = {
                 'every open, header verdict specification (missing/wrong format, missing version, missing id refused), ReadOnly on a '
                 'missing path refused before a backend exists, open path writes only what is absent, and every file-mutating HDF5 '
                 'call has its result checked so that a refusal by libhdf5 (read-only file) becomes an exception. Byte identity and '
-                'content preservation themselves are libhdf5 behaviour: not decided.',
+                'content preservation themselves are libhdf5 behaviour: not decided.'
+                ' Added: raw HDF5 ids reach their owner before anything can throw (R-HIDOWN); file property list deny list (R-FAPL); const backend methods never write (R-GETPURE); existence queries check() their result (R-ERR-EXISTS); header verdict judged by outcome only.',
     },
     'C11': {
         'technique': 'static analysis: must-pass-through (post-dominance) and who-may-call rules on FileHDF5::flush/close and '
@@ -90,7 +96,8 @@ CHECKS = {
                 'error; close closes the root handles, enumerates open groups/datasets/datatypes, closes each id ref-count times and '
                 'then the file id on every path; File::close drops the backend pointer, all File members go through backend() '
                 '(throws when empty); mutating HDF5 results are checked. Durability against SIGKILL / what libhdf5 has written is a '
-                'crash-point property outside static reach: NOT decided (partial claim).',
+                'crash-point property outside static reach: NOT decided (partial claim).'
+                " Added: R-FAPL (libver bounds / close degree), R-HIDOWN, R-ERR-EXISTS (stale handles raise instead of answering 'absent').",
     },
     'C12': {
         'technique': 'static analysis: entropy-source classification of the generator chain in util::createId (def-use over static '
@@ -99,7 +106,8 @@ CHECKS = {
                 'clock/constant-only seed is reported), createId returns the formatted uuid, all 12 backend creation sites pass a '
                 'fresh createId() to the creating constructor, entity_id/id keys are written only by creating constructors / '
                 'createHeader / forceId, and no create entry point can re-run a creating constructor on an existing entity. '
-                'Collision probability is not decided.',
+                'Collision probability is not decided.'
+                ' Added: R-NAMEFIRST and the R-NOCACHE clauses (a duplicate test that is fooled re-runs the creating constructor on an existing entity).',
     },
     'C13': {
         'technique': 'static analysis: dominance/guard-fact rules at every ticks / sampling-interval sink call site, linear-form check '
@@ -109,7 +117,8 @@ CHECKS = {
                 '0 < index <= count+1, delete-all covers count..1), "whichever entry point" for sorted ticks and positive intervals '
                 '(every front-end sink call site is guarded), optional parameters stored iff not default (negative offsets), alias '
                 'preconditions and redirection of every label/unit/ticks accessor. Value equality on read-back and ticks written '
-                'through the aliased array are not decided.',
+                'through the aliased array are not decided.'
+                ' Added: key/getter/codec rules for dimension descriptors, R-TICKS (alias ticks replace the array), R-MBT slice for the append/create entry points, R-COLIDX, R-MEMTYPE.',
     },
     'C18': {
         'technique': 'static analysis: constant-table agreement (regex alternatives / factor map / SI exponents), alternation-order '
@@ -120,7 +129,8 @@ CHECKS = {
                 'InvalidUnit when not scalable, isScalable is true only for two SI units with equal base unit and power; each '
                 'position->index conversion site calls getSIScaling(position unit, dimension unit) and the scaled value reaches '
                 'indexOf; tag units are sanitised and SI-checked before storage. Floating-point exactness, composition a->b->c as a '
-                'numeric identity and selection invariance are not decided.',
+                'numeric identity and selection invariance are not decided.'
+                ' Added: memo-wrapper idiom with key injectivity, R-MEMO, R-PARALLEL, R-UNIT-SCALEPOS (case-sensitive unit equality).',
     },
     'C19': {
         'technique': 'static analysis: rule-table extraction from the validate overloads (level/getter/predicate/parent), channel '
@@ -130,7 +140,8 @@ CHECKS = {
                 'correct: all 15 rules named by the property exist with the right level (hard = error, soft = warning), message '
                 'channels are not crossed, File::validate reaches every entity kind (features, nested sources/sections, properties) '
                 'and keeps every result, and no predicate loop lets a later element overwrite an untested verdict. The arithmetic of '
-                'the predicates themselves (isScalable, sizes) is not decided.',
+                'the predicates themselves (isScalable, sizes) is not decided.'
+                ' Added: R-VALID-COND (a throwing getter fails the condition), isScalable specification (R-UNIT-SCALE).',
     },
     'C04': {
         'technique': 'static analysis: role table of removal sites filled from interface overriders, who-may-call and call-graph '
@@ -140,7 +151,8 @@ CHECKS = {
                 'links of the victim (never a single unlink) with children deleted first for sections/sources; the 20 holder-side '
                 'unlink sites cannot reach removeAllLinks; only deletion roles call removeAllLinks; removeAllLinks loops until the '
                 'object has no path; handle validity = link count > 0; positions/extents/feature-data getters re-check block '
-                'membership. Bit-identity of all other entities and HDF5 link bookkeeping are not decided.',
+                'membership. Bit-identity of all other entities and HDF5 link bookkeeping are not decided.'
+                " Added: raw buffers handed to C APIs were sized, not only reserved (R-RAWBUF, guards removeAllLinks' name loop); no backend object caches a resolved entity (R-NOCACHE).",
     },
     'C20': {
         'technique': 'static analysis: work-list discipline rule (insertion/removal ends resolved through helpers), guard-fact and '
@@ -150,7 +162,8 @@ CHECKS = {
                 'parent depth + 1 enqueued only while parent depth < max_depth, matches appended in removal order, every root '
                 'covered by File::findSections / Block::findSources, back references enumerate all blocks / nested sources with '
                 'MetadataFilter(id()) resp. SourceFilter(id()), inherited properties shadow by name. Equality with a brute-force '
-                'traversal for all trees is not decided.',
+                'traversal for all trees is not decided.'
+                ' Added: R-FILTER, results only through the work list, no early exit from the root loop, R-NOCACHE.',
     },
     'C07': {
         'technique': 'static analysis: abstract interpretation with symbolic results on every abstract path (boolean abstraction of all '
@@ -161,7 +174,8 @@ CHECKS = {
                 'overloads delegate element-wise under an equal-length guard; positionToIndex routes every DimensionType to the '
                 'matching overload; per matching rule the sampled/set/data-frame helpers use ceil/floor/round with the exact-hit '
                 '+-1 adjustment, the range helper handles before-first / after-last / lower_bound adjustment as specified. The '
-                'floating-point behaviour of the epsilon test (0.1-interval rounding) is NOT decided.',
+                'floating-point behaviour of the epsilon test (0.1-interval rounding) is NOT decided.'
+                ' Added: PositionMatch forwarding (R-FORWARD-PM), checked upper_bound idiom, exact-hit polynomial, loop-invariance of vector overloads, stale-size rule (R-STALE).',
     },
     'C05': {
         'technique': 'static analysis: abstract interpretation (boolean abstraction, loops as one arbitrary iteration, symbolic stores) of '
@@ -170,7 +184,8 @@ CHECKS = {
                 'extent, inclusive mode without extent, offset = first / count = 1 + (second - first), point fall-back only for zero '
                 'extent (else OutOfBounds), results reach the out-parameters, view built only after the bounds test on the same '
                 'values, feature dispatch per link type, range-pair composition. Which elements come back for given floating-point '
-                'positions and the padding extent of unspecified dimensions are numeric: NOT decided.',
+                'positions and the padding extent of unspecified dimensions are numeric: NOT decided.'
+                ' Added: the RangeMatch argument is forwarded to every callee (R-FORWARD); per-dimension containers are read at one index (R-PARALLEL); no function-static memo with an incomplete key (R-MEMO); the bounds predicate positionAndExtentInData is itself checked (R-INDATA); exact-hit test of the sampled helper is the polynomial r*interval+offset-position (R-MATCH); swapped-argument rule (R-SWAP); stale-size rule (R-STALE).',
     },
     'C06': {
         'technique': 'static analysis: abstract interpretation of getOffsetAndCount(MultiTag)/taggedData/featureData (all abstract '
@@ -178,7 +193,8 @@ CHECKS = {
         'text': 'Decides structural necessary conditions of C06: the row read from positions/extents is the requested index, bounds '
                 'guard before reading, per-index offset/count from the range at one dimension index, point fall-back stored into the '
                 'offset handed to the caller (dead-store rule), view after bounds test, indexed/tagged/untagged feature dispatch. '
-                'Element selection for particular floating-point positions is numeric: NOT decided.',
+                'Element selection for particular floating-point positions is numeric: NOT decided.'
+                ' Added: rows are read at indices[idx] before each use, block reads only under a whole-list test; index bound for indexed/untagged features; R-FORWARD, R-PARALLEL, R-MEMO, R-INDATA, R-PAIR-VEC (no state carried between list elements), R-SWAP, R-STALE.',
     },
     'C17': {
         'technique': 'static analysis: abstract interpretation of dataSlice, DataView (ctor, transform_coordinates, ioRead/ioWrite) and '
@@ -187,7 +203,8 @@ CHECKS = {
                 'index with the right descriptor, builds the view only after the bounds test; unspecified dimensions are filled in for '
                 'all descriptor kinds; DataView checks its window at construction, compares each request with the window extent and '
                 'translates by the window origin; NDSize <=,<,>,>= have the element-wise meaning the guards rely on; subscripts on '
-                'caller-owned vectors are bounded. Which elements a position pair selects is numeric: NOT decided.',
+                'caller-owned vectors are bounded. Which elements a position pair selects is numeric: NOT decided.'
+                ' Added: NDSize comparisons are treated component-wise by the interpreter; guarded-subtraction idiom; R-INDATA; R-MEMO; R-UNIT-SCALEPOS; R-FILL understands padding through maximumExtents; R-SWAP.',
     },
     'C08': {
         'technique': 'static analysis: interprocedural clean/dirty typestate over the closed-world call graph and per-function CFGs '
@@ -197,7 +214,8 @@ CHECKS = {
                 'mutation or it is discharged by a named table entry whose structural precondition (a dominating pre-check) is '
                 're-verified on every run; plus validate-before-create at every create entry point. 9 instances (Group member '
                 'replacement, sources(vector) with an uninitialised handle) are recorded known findings. State equality itself and '
-                'rejections raised inside libhdf5 are not decided.',
+                'rejections raised inside libhdf5 are not decided.'
+                ' Added: conditional discharges require the validating loop to test under the key the later call uses; name-first lookups (R-NAMEFIRST); optGroup negative-memory clause (R-NOCACHE).',
     },
     'C16': {
         'technique': 'static analysis: repository-specific lint set over the resolved program - guard-fact (dominance) rules for '
@@ -207,7 +225,8 @@ CHECKS = {
                 'present at any of their ~200 sites: null char* into std::string, dereference of maybe-null lookups / untested '
                 'optional groups, *max_element/front() on possibly empty ranges, unchecked subscripts on caller-owned vectors, '
                 'unguarded NDSize/NDArray element access, unguarded front-end index getters, size narrowing to element types, '
-                'buffer/count disagreement at I/O primitives, unchecked HDF5 results. Other programs / other idioms are not covered.',
+                'buffer/count disagreement at I/O primitives, unchecked HDF5 results. Other programs / other idioms are not covered.'
+                ' Added: R-VECFILL, R-RAWBUF, R-COLIDX, R-NULL-CSTR, R-STALE, R-ERR-EXISTS.',
     },
 }
 
